@@ -390,3 +390,10 @@ Lemma bs_seq_store_ex a i v st k z s2 : i st = Some k -> v st = Some z -> 0 <= k
   (exists o, bs s2 (setA st a (nset (Z.to_N k) z (A st a))) o /\ P o) -> exists o, bs (SSeq (SStore a i v) s2) st o /\ P o.
 Proof. intros H Hv Hk Hn (o & B & HP). exists o. split; [eapply bs_seq_store; eauto|exact HP]. Qed.
 End Ex.
+
+(* the relational semantics is deterministic *)
+Lemma bs_det s st o1 o2 : bs s st o1 -> bs s st o2 -> o1 = o2.
+Proof.
+  intros H1 H2. destruct (bs_exec _ _ _ H1) as [N1 [f1 E1]]. destruct (bs_exec _ _ _ H2) as [N2 [f2 E2]].
+  eapply exec_det; [apply (E1 (Nat.max f1 f2)); lia | apply (E2 (Nat.max f1 f2)); lia | exact N1 | exact N2].
+Qed.
